@@ -2,7 +2,7 @@
 from __future__ import annotations
 
 import vf
-from circ_props import BUILD, run_histories, replay_case, fold_stress
+from circ_props import BUILD, run_histories, replay_case, fold_stress, jsonable
 
 WANT = {'views'}
 
@@ -42,6 +42,8 @@ def run(ctx: vf.Ctx):
                    '(reading the private fields)']
     run_histories(ctx, WANT, ctx.n(700, 25000), ctx.n(30, 40), classify)
     fold_stress(ctx, WANT, classify)
+    unconditional_stream(ctx)
+    aliasing_stream(ctx)
     ctx.cov['editors_with_invariant_theorem'] = 22
     ctx.cov['views_defined_in_coq_and_compared'] = ['_front/first_on', '_rear/last_on', 'front', 'rear', '_dag', 'next', 'prev',
                                                    'num_operations', '_gate_info/gate_counts', '_graph_info', 'active_qudits', 'depth',
@@ -49,6 +51,302 @@ def run(ctx: vf.Ctx):
     ctx.cov['views_oracle_only'] = ['num_params', 'coupling_graph']
     if ctx.tier == 'thorough':
         exhaustive_short(ctx)
+
+
+def run_alias_history(n, rads, steps):
+    """Aliasing history (finding D21): Operation OBJECTS handed to the circuit are handed in again / kept by the caller
+    while qudit edits and set_param(s) run.  steps: ['new', opsnap] (append a fresh object, remember it), ['append_alias', k],
+    ['insert_alias', cycle, k], ['replace_alias', [cy, q], k] (k-th remembered object), ['pop_qudit', q], ['insert_qudit', q, r],
+    ['renumber', perm], ['set_param', i, x], ['set_params', [..]].  Returns (findings, model_pairs): findings = (step, symptom,
+    detail); model_pairs = (pre_fmt, model_cmd, impl_line, kind) for the steps the model sees as plain calls."""
+    import circ_common as cc
+    from bqskit.ir.circuit import Circuit
+    c = Circuit(n, list(rads))
+    handed, finds, pairs = [], [], []
+
+    def tup(x):
+        return tuple(tup(y) for y in x) if isinstance(x, list) else x
+    for si, st in enumerate(steps):
+        st = tup(st)
+        k = st[0]
+        pre = cc.snap(c)
+        call = None
+        try:
+            if k == 'new':
+                op = cc.op_from_snap(st[1])
+                call = ('append', st[1])
+                c.append(op)
+                handed.append([op, tuple(op.location), tuple(op.params)])
+            elif k in ('append_alias', 'insert_alias', 'replace_alias'):
+                h = handed[st[-1] % len(handed)] if handed else None
+                if h is None:
+                    continue
+                op = h[0]
+                h[1], h[2] = tuple(op.location), tuple(op.params)     # what the caller holds when handing it in
+                if k == 'append_alias':
+                    call = ('append', cc.snap_op(op))
+                    c.append(op)
+                elif k == 'insert_alias':
+                    call = ('insert', st[1], cc.snap_op(op))
+                    c.insert(st[1], op)
+                else:
+                    call = ('replace', st[1], cc.snap_op(op))
+                    c.replace(st[1], op)
+            elif k == 'pop_qudit':
+                call = ('pop_qudit', st[1])
+                c.pop_qudit(st[1])
+            elif k == 'insert_qudit':
+                call = ('insert_qudit', st[1], st[2])
+                c.insert_qudit(st[1], st[2])
+            elif k == 'renumber':
+                call = ('renumber', st[1])
+                c.renumber_qudits(list(st[1]))
+            elif k == 'set_param':
+                if c.num_params == 0:
+                    continue
+                i = st[1] % c.num_params
+                before = [float(x) for x in c.params]
+                x = float(st[2]) if before[i] != float(st[2]) else float(st[2]) + 1.0
+                c.set_param(i, x)
+                after = [float(y) for y in c.params]
+                exp = before[:i] + [x] + before[i + 1:]
+                if after != exp:
+                    finds.append((si, 'set_param_changed_other_entries', dict(index=i, value=x, before=before, after=after)))
+            elif k == 'set_params':
+                new = [float(st[1][j % len(st[1])]) for j in range(c.num_params)] if st[1] else []
+                if len(new) != c.num_params:
+                    continue
+                c.set_params(new)
+                after = [float(y) for y in c.params]
+                if after != new:
+                    finds.append((si, 'set_params_not_read_back', dict(given=new, after=after)))
+            ok = True
+        except (ValueError, IndexError):
+            ok = False
+        except Exception as e:
+            finds.append((si, 'internal-error', type(e).__name__ + ':' + str(e)[:150]))
+            break
+        try:
+            bad = cc.check_views(c)
+        except Exception as e:
+            bad = [('accessor_raised', type(e).__name__ + ':' + str(e)[:150])]
+        if bad:
+            finds.append((si, bad[0][0], str(bad[:3])[:400]))
+            break
+        for hi, (op, loc, ps) in enumerate(handed):
+            if tuple(op.location) != loc or tuple(op.params) != ps:
+                finds.append((si, 'caller_object_mutated', dict(handed=hi, held=[list(loc), list(ps)], now=[list(op.location), list(op.params)])))
+                handed[hi][1], handed[hi][2] = tuple(op.location), tuple(op.params)
+        if call is not None and ok and not finds:
+            cmd = cc.model_cmd(call)
+            if cmd is not None:
+                pairs.append((cc.fmt(pre), cmd, cc.fmt(cc.snap(c)), call[0]))
+        if finds:
+            break
+    return finds, pairs
+
+
+def gen_alias_history(rng):
+    import circ_common as cc
+    n = rng.randint(2, 5)
+    rads = [2] * n if rng.random() < 0.7 else [rng.choice([2, 2, 3]) for _ in range(n)]
+    steps, w, nh = [], n, 0
+    for _ in range(rng.randint(4, 12)):
+        r = rng.random()
+        if nh == 0 or r < 0.25:
+            o = cc.rand_op(rng, n, rads)            # fits the initial width; a later ValueError is a legitimate rejection
+            o = (o[0], o[1], tuple(q % w for q in o[2]) if len(set(q % w for q in o[2])) == len(o[2]) else o[2], o[3], o[4], o[5])
+            steps.append(['new', o])
+            nh += 1
+        elif r < 0.45:
+            steps.append(['append_alias', rng.randrange(nh)])
+        elif r < 0.52:
+            steps.append(['insert_alias', rng.randint(-2, 4), rng.randrange(nh)])
+        elif r < 0.58:
+            steps.append(['replace_alias', [rng.randint(0, 3), rng.randrange(w)], rng.randrange(nh)])
+        elif r < 0.70 and w > 1:
+            steps.append(['pop_qudit', rng.randrange(w)])
+            w -= 1
+        elif r < 0.78:
+            steps.append(['insert_qudit', rng.randint(0, w), 2])
+            w += 1
+        elif r < 0.88:
+            perm = list(range(w))
+            rng.shuffle(perm)
+            steps.append(['renumber', perm])
+        elif r < 0.96:
+            steps.append(['set_param', rng.randrange(50), rng.randint(1, 99)])
+        else:
+            steps.append(['set_params', [rng.randint(1, 99) for _ in range(5)]])
+    return n, rads, steps
+
+
+def report_alias(ctx, case, finds):
+    for si, sym, detail in finds:
+        call = case['steps'][si][0]
+        ctx.violation(dict(call=call, symptom='alias:' + sym), dict(case, step=si),
+                      'views consistent; the caller\'s Operation objects untouched; one parameter changes one entry of circuit.params',
+                      jsonable(detail) if not isinstance(detail, str) else detail,
+                      f'aliasing history, step {si} ({call}): {sym} - an Operation object handed to the circuit is shared with the caller / stored twice')
+
+
+def aliasing_stream(ctx: vf.Ctx):
+    import json
+    import random
+    pairs_all = []
+    for f in sorted((vf.ROOT / 'corpus' / ctx.prop).glob('*.json')):
+        case = json.loads(f.read_text())['case']
+        if case.get('kind') != 'alias-history':
+            continue
+        finds, pairs = run_alias_history(case['n'], case['rads'], case['steps'])
+        report_alias(ctx, case, finds)
+        pairs_all += [(case, p) for p in pairs]
+        ctx.count('alias:corpus')
+    na = 0
+    for h in range(ctx.n(250, 6000)):
+        rng = random.Random(ctx.seed * 2750159 + 15485863 * h + 11)
+        n, rads, steps = gen_alias_history(rng)
+        case = dict(kind='alias-history', pre=[n, rads, []], call=['noop'], n=n, rads=rads, steps=jsonable(steps))
+        finds, pairs = run_alias_history(n, rads, steps)
+        report_alias(ctx, case, finds)
+        pairs_all += [(case, p) for p in pairs]
+        na += sum(1 for s in steps if s[0].endswith('_alias'))
+        ctx.case(('alias', h), nontrivial=True)
+    lines = []
+    for _, (pre, cmd, impl, kind) in pairs_all:
+        lines += ['set ' + pre, cmd]
+    out = vf.run_model('circuit', lines) if lines else []
+    if len(out) != len(lines):
+        ctx.broken_obligation('correspondence coq/circuit/CModel.v (aliasing stream): wrong number of answers', f'{len(out)} vs {len(lines)}')
+    else:
+        for j, (case, (pre, cmd, impl, kind)) in enumerate(pairs_all):
+            got = out[2 * j + 1]
+            if got.split('|', 1)[-1].strip() != impl.strip():
+                ctx.mismatch('coq/circuit/CModel.v vs bqskit/ir/circuit.py (' + kind + ', aliasing stream)', dict(pre=pre, cmd=cmd), got[:1500], impl[:1500])
+    ctx.cov['aliasing_stream_alias_calls'] = na
+    ctx.cov['aliasing_stream_model_steps'] = len(pairs_all)
+
+
+FOCUS = {'append', 'append_circuit', 'insert_circuit', 'replace_with_circuit', 'unfold_all', 'unfold', 'renumber',
+         'insert_qudit', 'pop_qudit', 'append_qudit', 'pop'}
+
+
+def out_of_range_ops(c):
+    """the conclusion `in_range` of C05_history_inv_unconditional read off the implementation (top level and,
+    relative to the block, one level into every CircuitGate)"""
+    from bqskit.ir.gates import CircuitGate
+    bad = []
+    for cy, op in c.operations_with_cycles():
+        if any(not (0 <= q < c.num_qudits) for q in op.location):
+            bad.append((cy, tuple(op.location)))
+        if isinstance(op.gate, CircuitGate):
+            inner = op.gate._circuit
+            if inner.num_qudits != len(op.location):
+                bad.append((cy, 'block-width', inner.num_qudits, tuple(op.location)))
+    return bad
+
+
+def unconditional_stream(ctx: vf.Ctx):
+    """Tie of C05_history_inv_unconditional(_from) / C05_unfold_all_in_range: (1) the hypothesis `0 < n` is what the
+    constructor and pop_qudit enforce; (2) histories concentrated on the combination the earlier theorem excluded
+    (blocks, unfold_all, qudit insertion/removal, renumber_qudits): after every call the width is positive, every
+    operation sits on qudits of the circuit, all views agree, and the grid equals the extracted model's."""
+    import random
+    import circ_common as cc
+    import circ_run as cr
+    from bqskit.ir.circuit import Circuit
+    # (1) width guard
+    for w in (0, -1):
+        try:
+            Circuit(w)
+            ctx.violation(dict(call='Circuit', symptom='width0_accepted'), dict(kind='ctor', width=w), 'ValueError', 'accepted',
+                          f'Circuit({w}) is accepted: the width hypothesis of C05_history_inv_unconditional is not enforced')
+        except ValueError:
+            ctx.count('width_guard:ctor_rejects')
+        except Exception as e:
+            ctx.violation(dict(call='Circuit', symptom='internal-error'), dict(kind='ctor', width=w), 'ValueError', repr(e)[:200],
+                          f'Circuit({w}) fails with {type(e).__name__}')
+    c1 = Circuit(1)
+    out = cc.apply_impl(c1, ('pop_qudit', 0))
+    if out.kind != 'E' or c1.num_qudits != 1:
+        ctx.violation(dict(call='pop_qudit', symptom='last_qudit_removed'), dict(kind='circuit-history', pre=cc.snap(Circuit(1)), call=['pop_qudit', 0]),
+                      'ValueError, width stays 1', f'{out} width {c1.num_qudits}', 'pop_qudit removed the last qudit')
+    else:
+        ctx.count('width_guard:pop_last_qudit_rejected')
+    # (2) directed histories
+    lines, index = [], []
+    n_hist = ctx.n(160, 4000)
+    nsteps = nun = 0
+    for h in range(n_hist):
+        rng = random.Random(ctx.seed * 7368787 + 104729 * h + 5)
+        n = rng.randint(1, 4)
+        rads = [rng.choice([2, 2, 3]) for _ in range(n)]
+        c = Circuit(n, rads)
+        stop = False
+        for step in range(rng.randint(3, 12)):
+            call = None
+            for _ in range(200):
+                try:
+                    k = cc.gen_call(rng, c, valid_p=0.93)
+                except Exception as e:
+                    k = None
+                    break
+                if k[0] in FOCUS:
+                    call = k
+                    break
+            if call is None:
+                break
+            pre = cc.snap(c)
+            case = dict(kind='circuit-history', pre=jsonable(pre), call=jsonable(call))
+            try:
+                with cr.watchdog(30):
+                    out = cc.apply_impl(c, call)
+                    post = cc.snap(c)
+                    bad = cc.check_views(c)
+                    oor = out_of_range_ops(c)
+            except cr.HistoryTimeout:
+                sig, what = classify(dict(kind='hang', call=call, detail='no return within 30s CPU'))
+                ctx.violation(sig, case, 'the call returns', 'no return', what)
+                break
+            except Exception as e:
+                sig, what = classify(dict(kind='iteration_raised', call=call, detail=type(e).__name__ + ':' + str(e)[:120]))
+                ctx.violation(sig, case, 'readable circuit', repr(e)[:300], what)
+                break
+            nsteps += 1
+            nun += call[0] in ('unfold_all', 'renumber')
+            ctx.count('uncond:' + call[0])
+            if out.kind == 'E' and out.val.startswith('Internal'):
+                sig, what = classify(dict(kind='internal_error', call=call, detail=out.val))
+                ctx.violation(sig, case, 'no internal error', out.val, what)
+                stop = True
+            if c.num_qudits < 1:
+                ctx.violation(dict(call=call[0], symptom='width0'), case, 'num_qudits >= 1', c.num_qudits, f'after {call[0]} the circuit has no qudit')
+                stop = True
+            if oor:
+                ctx.violation(dict(call=call[0], symptom='op_out_of_range'), case, 'every operation on qudits of the circuit', str(oor[:3]),
+                              f'after {call[0]} an operation sits outside the circuit\'s qudits (in_range of C05_history_inv_unconditional)')
+                stop = True
+            if bad:
+                sig, what = classify(dict(kind='views', call=call, symptoms=[b[0] for b in bad]))
+                ctx.violation(sig, case, 'consistent views', str(bad[:3])[:500], what)
+                stop = True
+            cmd = cc.model_cmd(call)
+            if cmd is not None and not stop:
+                lines += ['set ' + cc.fmt(pre), cmd]
+                index.append((case, f'{out} | {cc.fmt(post)}', call[0]))
+            if stop:
+                break
+        ctx.case(('uncond', h), nontrivial=True)
+    outl = vf.run_model('circuit', lines) if lines else []
+    if len(outl) != len(lines):
+        ctx.broken_obligation('correspondence coq/circuit/CModel.v (unconditional stream): wrong number of answers', f'{len(outl)} vs {len(lines)}')
+    else:
+        for j, (case, impl, kind) in enumerate(index):
+            if outl[2 * j + 1] != impl:
+                ctx.mismatch('coq/circuit/CModel.v vs bqskit/ir/circuit.py (' + kind + ', unconditional stream)', case, outl[2 * j + 1][:2000], impl[:2000])
+    ctx.cov['unconditional_stream_steps'] = nsteps
+    ctx.cov['unconditional_stream_unfold_all_or_renumber'] = nun
+    ctx.cov['unconditional_stream_model_steps'] = len(index)
 
 
 def exhaustive_short(ctx: vf.Ctx):
@@ -93,4 +391,32 @@ def exhaustive_short(ctx: vf.Ctx):
 
 
 def replay(ctx: vf.Ctx, data):
+    case = data.get('case', {})
+    if case.get('kind') == 'alias-history':
+        finds, _ = run_alias_history(case['n'], case['rads'], case['steps'])
+        report_alias(ctx, {k: v for k, v in case.items() if k != 'step'}, finds)
+        return
+    if case.get('kind') == 'ctor':
+        from bqskit.ir.circuit import Circuit
+        try:
+            Circuit(case['width'])
+            ctx.violation(dict(call='Circuit', symptom='width0_accepted'), case, 'ValueError', 'accepted', f"Circuit({case['width']}) is accepted")
+        except ValueError:
+            pass
+        return
     replay_case(ctx, data, WANT, classify)
+    if case.get('kind') == 'circuit-history' and 'pre' in case and 'call' in case:
+        # the extra oracles of the unconditional stream
+        import circ_common as cc
+
+        def tup(x):
+            return tuple(tup(y) for y in x) if isinstance(x, list) else x
+        try:
+            c = cc.circ_from_snap_exact(tup(case['pre']))
+            cc.apply_impl(c, tup(case['call']))
+            oor = out_of_range_ops(c)
+        except Exception:
+            return
+        if oor:
+            ctx.violation(dict(call=case['call'][0], symptom='op_out_of_range'), case, 'every operation on qudits of the circuit', str(oor[:3]),
+                          'an operation sits outside the circuit\'s qudits')
